@@ -11,6 +11,7 @@ import BB.Proofs.G5Add
 import BB.Proofs.G5Markers
 import BB.Model.Tools
 import BB.Properties.C10
+import BB.Proofs.G10ReadBack
 
 namespace BB.C16
 open BB BB.Sequence BB.G5
@@ -979,5 +980,170 @@ theorem bp_add_waituntil_counterexample :
     (forgeBP (exA.add exW)).map (·.N) = .ok 30 ∧
     (forgeBP exLong).map (·.N) = .ok 30 ∧ (forgeBP (exLong.add exW)).map (·.N) = .error .value := by
   decide +kernel
+
+end BB.C16
+
+/-! ## read-back sequences, and "leaves both operands unchanged" (group G10) -/
+
+namespace BB.C16
+open BB BB.Sequence BB.G5
+
+/-- **a sequence read back from a description satisfies the invariant the theorems about `+` need**:
+    whatever `Sequence.sequence_from_description` returns (for any description it accepts — in
+    particular the JSON round trip of C19) keeps its sequencing entries under the keys of its entries
+    and stores no AWG setting twice.  So the clauses "sequencing entries of a + b"
+    (`add_sequencing`), associativity (`add_assoc`) and "forged output of a + b" (`forge_add`) apply
+    to read-back operands as they do to operands built with the setters. -/
+theorem readback_inv (d : J) (s : Sequence) (h : Sequence.ofDesc d = .ok s) : SeqInv s := G10.ofDesc_inv d s h
+
+/-- `Built` extended by the reader: the sequences that can be obtained through the public
+    interface when `sequence_from_description` / `init_from_json` is one of the constructors -/
+inductive BuiltRB : Sequence → Prop
+  | readBack (d : J) (s : Sequence) : Sequence.ofDesc d = .ok s → BuiltRB s
+  | empty : BuiltRB {}
+  | setName (s : Sequence) (n : String) : BuiltRB s → BuiltRB { s with name := n }
+  | setSpec (s : Sequence) (k : String) (v : Spec) : BuiltRB s → BuiltRB (s.setSpec k v)
+  | setFilter (s : Sequence) (ch : Chan) (kind : String) (order : ℤ) (oi : Bool) (fc tau : Val) :
+      BuiltRB s → BuiltRB (s.setChannelFilterCompensation ch kind order oi fc tau).st
+  | addElement (s : Sequence) (pos : ℤ) (e : Element) : BuiltRB s → BuiltRB (s.addElement pos e).st
+  | addSubSequence (s : Sequence) (pos : ℤ) (sub : Sequence) : BuiltRB s → BuiltRB (s.addSubSequence pos sub).st
+  | setSequencing (s : Sequence) (pos : ℤ) (f : SeqSet → SeqSet) : BuiltRB s → BuiltRB (s.setSequencing pos f).st
+  | copy (s : Sequence) : BuiltRB s → BuiltRB s.copy
+  | add (a b s : Sequence) : BuiltRB a → BuiltRB b → a.add b = .ok s → BuiltRB s
+  | modifyElement (s : Sequence) (pos : ℤ) (f : Element → Res Element) : BuiltRB s → BuiltRB (Tools.modifyElement s pos f).st
+  | specsOf (s : Sequence) : BuiltRB s → BuiltRB { awgspecs := s.awgspecs }
+
+/-- everything `Built` is `BuiltRB` (the extension only adds sequences; helper for `builtRB_inv`) -/
+theorem built_builtRB (s : Sequence) (h : Built s) : BuiltRB s := by
+  induction h with
+  | empty => exact .empty
+  | setName s n _ ih => exact .setName s n ih
+  | setSpec s k v _ ih => exact .setSpec s k v ih
+  | setFilter s ch kind order oi fc tau _ ih => exact .setFilter s ch kind order oi fc tau ih
+  | addElement s pos e _ ih => exact .addElement s pos e ih
+  | addSubSequence s pos sub _ ih => exact .addSubSequence s pos sub ih
+  | setSequencing s pos f _ ih => exact .setSequencing s pos f ih
+  | copy s _ ih => exact .copy s ih
+  | add a b s _ _ hadd iha ihb => exact .add a b s iha ihb hadd
+  | modifyElement s pos f _ ih => exact .modifyElement s pos f ih
+  | specsOf s _ ih => exact .specsOf s ih
+
+/-- **`built_inv` for the extended interface**: every sequence obtained from read-back sequences and
+    fresh ones with the setters, `addElement`, `addSubSequence`, `copy`, `+`, in-place edits of stored
+    elements, satisfies `SeqInv` (so `add_sequencing`, `add_assoc`, `forge_add` apply to it) -/
+theorem builtRB_inv (s : Sequence) (h : BuiltRB s) : SeqInv s := by
+  induction h with
+  | readBack d s h => exact readback_inv d s h
+  | empty => exact ⟨rfl, Dict.wf_nil⟩
+  | setName s n _ ih => exact ih
+  | setSpec s k v _ ih => exact ⟨ih.1, Dict.wf_upsert ih.2 k v⟩
+  | setFilter s ch kind order oi fc tau _ ih =>
+    unfold SeqCore.setChannelFilterCompensation
+    split
+    · exact ih
+    · split
+      · exact ih
+      · split
+        · exact ih
+        · exact ⟨ih.1, Dict.wf_upsert ih.2 _ _⟩
+  | addElement s pos e _ ih =>
+    unfold Sequence.addElement
+    split
+    · exact ih
+    · exact ⟨G5.keys_upsert_congr _ _ _ _ _ ih.1, ih.2⟩
+  | addSubSequence s pos sub _ ih =>
+    unfold Sequence.addSubSequence
+    split
+    · exact ih
+    · split
+      · exact ih
+      · exact ⟨G5.keys_upsert_congr _ _ _ _ _ ih.1, ih.2⟩
+  | setSequencing s pos f _ ih =>
+    unfold SeqCore.setSequencing
+    split
+    · exact ih
+    · rename_i q hq
+      refine ⟨?_, ih.2⟩
+      show Dict.keys (Dict.upsert s.sequencing pos (f q)) = Dict.keys s.data
+      rw [Dict.keys_upsert_of_mem _ _ _ ((Dict.get?_isSome_iff _ _).mp (by simp [hq]))]
+      exact ih.1
+  | copy s _ ih => exact ih
+  | add a b s _ _ hadd iha ihb =>
+    obtain ⟨ha, hb, _, rfl⟩ := (add_ok_iff a b s).mp hadd
+    exact ⟨addCore_aligned a b (positions_of_consistent a ha) (positions_of_consistent b hb) iha.1 ihb.1, ihb.2⟩
+  | modifyElement s pos f _ ih =>
+    unfold Tools.modifyElement
+    split
+    · rename_i e he
+      refine ⟨?_, ih.2⟩
+      show Dict.keys s.sequencing = Dict.keys (Dict.upsert s.data pos _)
+      rw [Dict.keys_upsert_of_mem _ _ _ ((Dict.get?_isSome_iff _ _).mp (by simp [he]))]
+      exact ih.1
+    · exact ih
+    · exact ih
+  | specsOf s _ ih => exact ⟨rfl, ih.2⟩
+
+/-- **forged output of `a + b` for read-back operands**: `a`, `b` read back from descriptions `da`, `db`
+    (e.g. after `write_to_json` / `init_from_json`), over the same channels — the sum forges to `a`'s
+    positions followed by `b`'s, re-keyed by `len(a)` with goto / jump target retargeted -/
+theorem forge_add_readback (da db : J) (a b s : Sequence) (ha : Sequence.ofDesc da = .ok a)
+    (hb : Sequence.ofDesc db = .ok b) (h : a.add b = .ok s) (hsh : SameShape a b)
+    (d f t : Bool) (fa fb : List (ℕ × ForgedPos)) (hfa : a.forge d f t = .ok fa) (hfb : b.forge d f t = .ok fb) :
+    s.forge d f t = .ok (fa ++ fb.map (shiftPos a.data.length)) :=
+  forge_add a b s h hsh (readback_inv da a ha) (readback_inv db b hb) d f t fa fb hfa hfb
+
+/-- **associativity for read-back operands**: `(a + b) + c` and `a + (b + c)` both return, and return
+    the same sequence, for consistent read-back `a`, `b`, `c` with equal settings over the same channels -/
+theorem add_assoc_readback (da db dc : J) (a b c : Sequence) (ra : Sequence.ofDesc da = .ok a)
+    (rb : Sequence.ofDesc db = .ok b) (rc : Sequence.ofDesc dc = .ok c)
+    (ha : a.checkConsistency = .ok true) (hb : b.checkConsistency = .ok true) (hc : c.checkConsistency = .ok true)
+    (hab : Dict.eqBy (· == ·) a.awgspecs b.awgspecs = true) (hbc : Dict.eqBy (· == ·) b.awgspecs c.awgspecs = true)
+    (sab : SameShape a b) (sbc : SameShape b c) :
+    ∃ ab bc s, a.add b = .ok ab ∧ ab.add c = .ok s ∧ b.add c = .ok bc ∧ a.add bc = .ok s :=
+  add_assoc a b c ha hb hc hab hbc sab sbc (readback_inv da a ra).1 (readback_inv db b rb).1 (readback_inv dc c rc).1
+
+/-- **`a + b` leaves both operands unchanged** — what this clause amounts to in the value model.  The
+    model's `__add__` is a function from the two operand values to a result (`Sequence.add`; no state
+    is threaded: unlike the mutators, which return `Res`, it cannot change an operand by
+    construction, and the correspondence check compares the operands' descriptions before and after
+    the call).  What can and must be proved is that the sum is built from *copies*: every stored
+    entry is `copyEntry` (= `element.copy()` / `subsequence.copy()`) of the operand's entry, the
+    settings are `b`'s, the name is fresh, and both operands are (still) consistent sequences.
+    The reference-level statement (no object reachable from the sum is shared with an operand, so no
+    later public mutator of the sum changes anything observable of `a` or `b`, and vice versa) is
+    `C09.heap_lib_independent` with `Heap.LibCall.sqAdd a b to` in the history: the sum is a
+    deriving call bound to a new name, and the later calls target other names.  (C09 imports this
+    file, so it is cited here rather than used; the instance for `+` is
+    `G10.add_operands_independent_heap` in `BB/Proofs/G10AddIndep.lean`.) -/
+theorem add_operands_unchanged (a b s : Sequence) (h : a.add b = .ok s) :
+    (∀ p ∈ Dict.keys a.data, Dict.get? s.data p = (Dict.get? a.data p).map copyEntry) ∧
+    (∀ p ∈ Dict.keys b.data, Dict.get? s.data (p + (a.data.length : ℤ)) = (Dict.get? b.data p).map copyEntry) ∧
+    s.awgspecs = b.awgspecs ∧ s.name = "" ∧
+    a.checkConsistency = .ok true ∧ b.checkConsistency = .ok true := by
+  obtain ⟨_, _, _, h4, h5⟩ := add_positions a b s h
+  obtain ⟨ha, hb, _, hs⟩ := (add_ok_iff a b s).mp h
+  refine ⟨h4, h5, ?_, ?_, ha, hb⟩
+  · rw [hs]; rfl
+  · rw [hs]; rfl
+
+/-- clause "leaves both operands unchanged", continued: the copies `+` stores are indistinguishable
+    from the operands' entries for every observer of the model (sample rate, channels, points; and
+    `forgePos_copyEntry` for the forged arrays): an element is stored as it is, a subsequence loses
+    only its name -/
+theorem copyEntry_observables (en : Entry) :
+    (copyEntry en).getSR = en.getSR ∧ (copyEntry en).channels = en.channels ∧ (copyEntry en).points = en.points ∧
+    (∀ e, en = .el e → copyEntry en = .el e) ∧
+    (∀ sub, en = .sub sub → copyEntry en = .sub { sub with name := "" }) :=
+  ⟨getSR_copyEntry en, channels_copyEntry en, points_copyEntry en, fun _ h => by rw [h]; rfl, fun _ h => by rw [h]; rfl⟩
+
+/-- non-vacuity of `add_operands_unchanged`: the example operands add -/
+example : ((exSeq (.int 1) 1).add (exSeq (.int 1) 0)).toOption.isSome = true := by decide +kernel
+
+/-- `BuiltRB` contains the built examples (non-vacuity of `builtRB_inv`); a read-back witness — the
+    JSON round trip of a concrete sequence returns a sequence, which then satisfies `SeqInv` and can
+    be added to itself — is `G10.readback_seqInv_witness` in `BB/Proofs/G10Witness.lean` (string
+    conversion is not kernel-reducible, so the witness comes from the round-trip theorem of C19,
+    which this file cannot import) -/
+example : BuiltRB (exSeq (.int 1) 1) := built_builtRB _ (exSeq_built _ _)
 
 end BB.C16
